@@ -247,3 +247,52 @@ def check_cosort(ctx, fi, rule='R-ROLE/co-permutation'):
            'that depends on the positions of the genes in the query: '
            'permuting the query columns (with their names) changes which '
            'markers a bootstrap draw selects, hence the mapping')
+
+
+def check_positions_not_fancy_indexed_raw(
+        ctx, fi, rule='R-ROLE/positions-as-stored'):
+    """the writer stores each group's positions as `np.array(list)`: for a
+    parent without markers (every single-child parent, a root with one
+    child) that is an *empty float64* array.  Readers may walk such an
+    array (`NAMES[i] for i in IDX`), but `NAMES[IDX]` -- a fancy index --
+    is refused by numpy for a float array even when it is empty, and the
+    run ends with an IndexError for a perfectly valid tree.  A position
+    dataset of the cache used as a fancy index must have been given an
+    integer type first (`astype(int)`, `np.asarray(.., dtype=int)`)."""
+    cfg = cfg_of(fi)
+    rd = rd_of(fi)
+    n = 0
+    for node in cfg.nodes:
+        if node.id not in rd.live or node.ast is None or node.kind not in (
+                'stmt', 'return'):
+            continue
+        for s in ast.walk(node.ast):
+            if not (isinstance(s, ast.Subscript) and isinstance(
+                    getattr(s, 'ctx', None), ast.Load)
+                    and isinstance(s.slice, ast.Name)):
+                continue
+            idx_roles, sl = _roles_of(fi, s.slice, node.id, IDX_KEYS)
+            if not idx_roles:
+                continue
+            # a scalar loop element is not a fancy index
+            ds = rd.reaching(s.slice.id, node.id)
+            if any(d.kind == 'for' for d in ds):
+                continue
+            name_roles, sl2 = _roles_of(fi, s.value, node.id, NAME_KEYS)
+            if not name_roles:
+                continue
+            n += 1
+            typed = bool({'astype', 'int64', 'intp'} & sl.call_names()) \
+                or any(isinstance(c, ast.Call) and any(
+                    kw.arg == 'dtype' for kw in c.keywords)
+                    for c in sl.calls)
+            ctx.touch(fi)
+            ctx.ob(rule, f'{fi.qual}:{unparse(s)[:40]}', fi.loc(s), typed,
+                   'the positions are given an integer type before they '
+                   'index the names' if typed else
+                   f'`{unparse(s)[:60]}` indexes the gene names with a '
+                   'position dataset as read from the cache: for a parent '
+                   'without markers that dataset is an empty float64 '
+                   'array, numpy refuses it as an index, and a valid '
+                   'taxonomy with a single-child parent cannot be mapped')
+    return n
